@@ -390,12 +390,45 @@ func CroakAfterMatch(v *vrt.Ctx) {
 	v.Cover("C06/croak-after-match")
 }
 
+// CroakAfterFailedPrevious: the input selects 'previous' on the first page.
+// That move fails and counts as no match, so the input is still being
+// handled when a CROAK fires (or the code runs out) right after it: the
+// session goes to the catch node and is not terminated.
+func CroakAfterFailedPrevious(v *vrt.Ctx) {
+	st := state.NewState(8)
+	ca := cache.NewCache()
+	st.Down("root")
+	ca.Push()
+	sig := 8 + uint32(v.Choice("sig", 8))
+	mode := v.Bool("mode")
+	if mode {
+		st.SetFlag(sig)
+	}
+	rs := app.NewRes()
+	rs.Node("root", "root", app.Code().Halt().Bytes())
+	rs.Node("_catch", "catch", app.Code().Halt().Bytes())
+	code := app.Code().InCmp("<", []string{"1", "*"}[v.Choice("matched-by", 2)])
+	if v.Choice("then-a-croak", 2) == 1 {
+		code.Croak(sig, mode)
+	}
+	st.SetInput([]byte("1"))
+	st.SetFlag(state.FLAG_READIN)
+	vmi := vm.NewVm(st, rs, ca, render.NewSizer(0))
+	_, err := vmi.Run(context.Background(), code.Bytes())
+	v.Assert(err == nil, "C06/croak-run-ok")
+	top := st.ExecPath[len(st.ExecPath)-1]
+	v.Assert(top == "_catch", "C06/croak-while-input-is-unresolved-goes-to-catch")
+	v.Assert(!bit(st.Flags, state.FLAG_TERMINATE), "C06/croak-while-input-is-unresolved-goes-to-catch")
+	v.Cover("C06/croak-after-failed-previous")
+}
+
 var Harnesses = map[string]func(*vrt.Ctx){
-	"CroakAfterMatch": CroakAfterMatch,
-	"MidRun":          MidRun,
-	"Writeable":       Writeable,
-	"Refresh":         Refresh,
-	"Catch":           Catch,
-	"Croak":           Croak,
-	"Terminate":       Terminate,
+	"CroakAfterFailedPrevious": CroakAfterFailedPrevious,
+	"CroakAfterMatch":          CroakAfterMatch,
+	"MidRun":                   MidRun,
+	"Writeable":                Writeable,
+	"Refresh":                  Refresh,
+	"Catch":                    Catch,
+	"Croak":                    Croak,
+	"Terminate":                Terminate,
 }
